@@ -479,7 +479,7 @@ theorem readRequestBody_ok (w : Nat) (r : Registry) (sup : List Str) (h : Hdrs) 
     · cases hr
   · split at hr
     · exact ⟨_, hr⟩
-    · exact ⟨_, hr⟩
+    · cases hr
     · cases hr
     · split at hr
       · cases hr
